@@ -11,6 +11,7 @@ import (
 	"fmt"
 	"reflect"
 	"sort"
+	"sync"
 	"unsafe"
 )
 
@@ -44,7 +45,7 @@ func Hash(v interface{}) (uint64, int) {
 // opaque types are hashed by identity only.
 func opaque(t reflect.Type) bool {
 	switch t.String() {
-	case "regexp.Regexp", "sync.Mutex", "sync.RWMutex", "sync.Once", "log.Logger", "os.File", "sync.Map", "sync.Pool":
+	case "regexp.Regexp", "sync.Mutex", "sync.RWMutex", "sync.Once", "log.Logger", "os.File", "sync.Pool":
 		return true
 	}
 	return false
@@ -110,6 +111,26 @@ func (x *hasher) value(v reflect.Value, depth int) {
 		x.value(e, depth+1)
 	case reflect.Struct:
 		x.str("struct:" + v.Type().String())
+		if v.Type().String() == "sync.Map" && v.CanAddr() {
+			// content, not identity: a process-wide registry kept in a sync.Map is state
+			m := (*sync.Map)(unsafe.Pointer(v.UnsafeAddr()))
+			type kv struct {
+				k, v interface{}
+				ord  string
+			}
+			var items []kv
+			m.Range(func(k, val interface{}) bool {
+				items = append(items, kv{k, val, keyOrder(reflect.ValueOf(k))})
+				return true
+			})
+			sort.SliceStable(items, func(i, j int) bool { return items[i].ord < items[j].ord })
+			x.mix(uint64(len(items)))
+			for _, it := range items {
+				x.value(reflect.ValueOf(it.k), depth+1)
+				x.value(reflect.ValueOf(it.v), depth+1)
+			}
+			return
+		}
 		if opaque(v.Type()) {
 			return
 		}
